@@ -16,7 +16,7 @@ OPTION_MENU = [
     [['lit', 'a'], ['lit', 'b']], [['lit', 'b'], ['pat', 'x']],
 ]
 OPTION_MENU_SMALL = [[['lit', 'a']], [['pat', 'x']], [['lit', 'a'], ['lit', 'b']], [['fn', '$eq', [['pat', 'y']]]],
-                     [['fn', '$eq', [['pat', 'x']]]]]
+                     [['fn', '$eq', [['pat', 'x']]]], [['fn', '$eq', [['lit', 'a']]]]]
 
 
 def names(refs, max_len, elems=None):
